@@ -60,6 +60,14 @@ def BOUNDED(tier, seed):
 
                         def loss(y, p):
                             return sum((Fraction(y) - v) ** 2 for v in p.values()) + len(p)
+                        if not bigger:
+                            # a loss OBJECT that carries a direction attribute of its own: only the explainer's flag decides the offset
+                            class _LossObject:
+                                bigger_is_better = True
+
+                                def __call__(self, y, p, _f=loss):
+                                    return _f(y, p)
+                            loss = _LossObject()
                         st = GeometricReservoirStorage(size=3) if dynamic else UniformReservoirStorage(size=3)
                         calls = []
 
